@@ -42,6 +42,7 @@ def run(ctx) -> None:
     ctx.section("keys", _keys, ctx)
     ctx.section("untouched", _untouched, ctx)
     ctx.section("table", _table, ctx)
+    ctx.section("promote-order", _promote_order, ctx)
     ctx.section("accept-widen-reject", c03._setitem, ctx, "e.accept-widen-reject", "e.target-applied")
     ctx.not_decided += ["equality with Python list assignment as values (index arithmetic of slice_length / range is numeric)"]
 
@@ -222,6 +223,34 @@ def _atomic(ctx) -> None:
     ctx.ob("a.validate-then-mutate", f, "atomic", not problems,
            f"{len(muts)} write events on self, first at line {getattr(first[0].node, 'lineno', '?')} ({first[1]}); nothing that may raise "
            f"follows any of them", first[0].node, message="; ".join(problems))
+
+
+def _promote_order(ctx) -> None:
+    """Vector._promote (called from __setitem__ before the storage is replaced): every element is converted BEFORE the first write to
+    self - a conversion can fail (float() of an int no float can hold), and the vector must then be exactly as it was."""
+    from ..sites2 import interp_of
+    from ..symx import show, subterms
+    prog = ctx.prog
+    f = prog.func("vector.Vector._promote")
+    it = interp_of(prog, f)
+    SELF = ("param", f.params[0])
+    und = ("attr", SELF, "_underlying")
+    writes = [e for e in it.events if (e.kind == "store" and e.term[0] == "attr" and e.term[1] == SELF)
+              or (e.kind == "call" and e.term[1][0] == "attr" and e.term[1][2] in ("register", "unregister"))]
+    convs = [e for e in it.events if e.kind == "call" and e.loops and any(
+        a_[0] == "elem" and a_[1] in (und, SELF) for a_ in e.term[2])]
+    problems = []
+    for w in writes:
+        for c_ in convs:
+            if _can_follow(w, c_):
+                problems.append(f"`{show(c_.term, it)[:40]}` (line {getattr(c_.node, 'lineno', '?')}) converts an element after `{show(w.term, it)[:40]}` "
+                                f"(line {getattr(w.node, 'lineno', '?')}) has already changed the vector: if the conversion fails the vector is left "
+                                f"re-labelled / half swapped by a failed assignment")
+                break
+        if problems:
+            break
+    ctx.ob("a.validate-then-mutate", f, "promote-converts-first", not problems and bool(convs) and bool(writes),
+           f"{len(convs)} element conversions, all before the {len(writes)} writes of their branch", f.node, message="; ".join(problems[:1]))
 
 
 def _rename(ctx) -> None:
